@@ -45,6 +45,7 @@ type Body struct {
 	idxCache  map[ssa.Instruction]int
 	pdomCache map[*ssa.Function]*postDom
 	implCache map[string][]*ssa.Function
+	roleCache map[string]*ssa.Function
 }
 
 const legacyGoMod = `module github.com/evanphx/json-patch
